@@ -1,5 +1,5 @@
 #!/usr/bin/env python3
-"""Regenerate engine/pdsa/baseline_fns.json: the keys of the functions of /repo's *reviewed* tree that the rule modules may anchor on.
+"""Regenerate engine/pdsa/baseline.json: keys, signatures and parameter names of the functions and the fields of the structs of /repo's *reviewed* tree that the rule modules may anchor on.
 Calls to crate-local functions not in this list are expanded in place before rules run (engine/pdsa/inline.py).  Run this only on a tree
 whose function set has been reviewed (the pinned commit plus `fix:` commits) — never as part of a check."""
 import json, os, subprocess, sys, tempfile
@@ -9,6 +9,8 @@ out = tempfile.mktemp(suffix=".json")
 subprocess.run([os.path.join(VERIF, "engine", "run_extract.sh"), repo, out], check=True)
 j = json.load(open(out))
 os.unlink(out)
-keys = sorted(f["key"] for f in j["fns"])
-json.dump(keys, open(os.path.join(VERIF, "engine", "pdsa", "baseline_fns.json"), "w"), indent=0)
-print("%d function keys" % len(keys))
+sys.path.insert(0, os.path.join(VERIF, "engine"))
+from pdsa.canon import make_baseline
+base = make_baseline(j)
+json.dump(base, open(os.path.join(VERIF, "engine", "pdsa", "baseline.json"), "w"), indent=0, sort_keys=True)
+print("%d functions, %d structs" % (len(base["fns"]), len(base["adts"])))
